@@ -66,6 +66,10 @@ def alphabet(tier):
         evs.append(hist.Event("insn", "A", "V14_" + n.replace("-", "_"), [BEHAVIOURS[n]]))
     for inst in ("A", "B"):
         evs.append(hist.Event("subcall", inst, "V14_subcall", [SUBCALL], sub=SUB))
+    # one instruction name (and the names the extension folds onto it) used with different behaviours
+    for inst in ("A", "B"):
+        for i, (nm, beh) in enumerate([("V14_shared", "plain"), ("V14_shared", "new-load-jump"), ("dep_V14_shared", "pred-explicit"), ("V14_shared_undocumented", "tmp-call"), ("IMPORTED_V14_shared", "late-unsupported")]):
+            evs.append(hist.Event("transform", inst, nm, [BEHAVIOURS[beh]], variant="v%d" % i))
     return evs
 
 
@@ -153,7 +157,7 @@ def run(ctx):
     ref = {}
     n_base_bad = 0
     for ev in alpha:
-        k = ev.base_key()[1]
+        k = ev.base_key()[1:]
         if ev.kind == "subcall":
             continue
         if k not in ref:
@@ -168,6 +172,12 @@ def run(ctx):
         return same(base[ev.key()], obs)
 
     res = hist.search(ctx, alpha, depth, check, drop=drop)
+    pairs = hist.all_pairs(ctx, alpha, check, drop=drop)
+    ctx.log("all histories of length 2: %d" % pairs["pair_transitions"])
+    seen_v = set((tuple(e.label() for e in h), ev.label()) for h, ev, _o, _b in res["violations"])
+    for v in pairs["violations"]:
+        if (tuple(e.label() for e in v[0]), v[1].label()) not in seen_v:
+            res["violations"].append(v)
     for h, ev, obs, bad in res["violations"]:
         case = {"history": [e.label() for e in h], "event": ev.label(), "behaviour": ev.texts[0], "why": bad, "history_texts": [e.texts[0] for e in h], "observed": repr(obs)[:600], "fresh": repr(base[ev.key()])[:600]}
         ctx.report(case, attribute(h, ev, bad), what="after [%s] the event %s gives a different result: %s" % (", ".join(e.label() for e in h), ev.label(), bad))
@@ -182,8 +192,9 @@ def run(ctx):
     return ctx.finish(
         dict(
             states=res["states"],
-            transitions=res["transitions"] + extra.get("corpus_pair_transitions", 0) + extra.get("counter_sweep_transitions", 0),
-            traces_validated_against_impl=res["transitions"] + extra.get("corpus_pair_transitions", 0) + extra.get("counter_sweep_transitions", 0),
+            transitions=res["transitions"] + pairs["pair_transitions"] + extra.get("corpus_pair_transitions", 0) + extra.get("counter_sweep_transitions", 0),
+            traces_validated_against_impl=res["transitions"] + pairs["pair_transitions"] + extra.get("corpus_pair_transitions", 0) + extra.get("counter_sweep_transitions", 0),
+            unmerged_length2_histories=pairs["pair_transitions"],
             depth_completed=len(res["levels"]),
             fixpoint_reached=(res["frontier_left"] == 0),
             levels=res["levels"],
